@@ -327,15 +327,34 @@ def p2sh_nested_cases():
                 yield {'kind': 'verify', 'ssig': ssig.hex(), 'spk': spk.hex(), 'flags': fl, 'tag': 'p2sh-nested'}
 
 
+def witness_shaped_cases():
+    """scripts SHAPED like witness programs (version opcode + one push of 2..40 bytes), as scriptPubKey and as redeem script:
+    under the flags in scope they are ordinary scripts - two pushes, the second decides"""
+    P = S.push_enc
+    progs = []
+    for ver in (0x00, 0x51, 0x60, 0x4f):
+        for body in (b'\x11' * 20, b'\x00' * 20, b'\x11' * 32, b'\x00' * 32, b'\x00' * 19 + b'\x80', b'\x22' * 19, b'\x22' * 21, b'\x22' * 2, b'\x22' * 40, b'\x22' * 41):
+            progs.append(bytes([ver]) + P(body))
+    for prog in progs:
+        for ssig in (b'', b'\x51', b'\x00', b'\x01\x51', b'\x61'):
+            for fl in FLAG_SUBSETS:
+                yield {'kind': 'verify', 'ssig': ssig.hex(), 'spk': prog.hex(), 'flags': fl, 'tag': 'witness-shaped-spk'}
+        spk = b'\xa9\x14' + H.h160(prog) + b'\x87'
+        for ssig in (P(prog), b'\x51' + P(prog), b'\x00' + P(prog), b'\x61' + P(prog)):
+            for fl in FLAG_SUBSETS:
+                yield {'kind': 'verify', 'ssig': ssig.hex(), 'spk': spk.hex(), 'flags': fl, 'tag': 'witness-shaped-redeem'}
+
+
 def t_p2sh(ctx):
     """every (redeem script from a 60-script catalogue) x (scriptSig prefix, push-only or not) x (push encoding) x flag subset
     against a pay-to-script-hash scriptPubKey and four look-alikes that are NOT P2SH: which of the inner script's outcomes
     (empty stack, false, true, error, extra items under CLEANSTACK) decides, and only when the P2SH flag is set"""
     agg = {'n': 0, 'nt': 0, 'cls': {}, 'sample': None}
-    for c in ctx.my(itertools.chain(p2sh_cases(), p2sh_nested_cases())):
+    for c in ctx.my(itertools.chain(p2sh_cases(), p2sh_nested_cases(), witness_shaped_cases())):
         _direct(ctx, c, agg)
     ctx.bulk(agg['n'], agg['nt'], agg['cls'], agg['sample'],
-             '%d redeem scripts x %d scriptSig prefixes x 2 push encodings x all %d flag subsets (P2SH grid + 4 look-alike scriptPubKeys)' % (
+             '%d redeem scripts x %d scriptSig prefixes x 2 push encodings x all %d flag subsets (P2SH grid + 4 look-alike scriptPubKeys); '
+             '40 witness-program-shaped scripts as scriptPubKey and as redeem script' % (
                  len(P2SH_REDEEMS), len(P2SH_PREFIXES), len(FLAG_SUBSETS)) if ctx.shard == 0 else None)
 
 
@@ -522,7 +541,7 @@ def s_signed(draw):
         # TWO signature checks in one script, same key and hash type, whose signed code differs only through signature removal:
         # <sigB> <pk> CHECKSIGVERIFY <pk> CHECKSIG spent with <sigA>; sigB covers the script without its own push, sigA (not
         # part of the script) covers all of it. (variants: separator between the checks, second key different)
-        sep = draw(st.sampled_from([b'', b'', b'\xab']))
+        sep = draw(st.sampled_from([b'', b'\xab', b'\xab']))
         k2 = draw(st.sampled_from([0, 0, 1]))
         tail = P(pubs[0]) + b'\xad' + sep + P(pubs[k2]) + b'\xac'
         sigb = b'' if bad == 'empty' else mksig(ks[0], tail, bad, low)
@@ -530,7 +549,7 @@ def s_signed(draw):
         code2 = spk if not sep else spk[spk.index(sep, len(P(sigb)) + len(P(pubs[0])) + 1) + 1:]
         siga = mksig(ks[k2], code2, None, low)
         ssig = P(siga)
-        if draw(st.integers(0, 3)) == 0:
+        if draw(st.integers(0, 2)) == 0:
             ssig = P(sigb if sigb else siga)            # the embedded signature reused for the second check: signs other code
     elif kind == 'p2pk_sig_in_spk':
         tail = P(pubs[0]) + b'\xac'
@@ -570,6 +589,13 @@ def t_signed(ctx):
     def fn(case):
         info = check_verify(case)
         info['cls'] = [c for c in info['cls'] if not c.startswith('tag:')] + ['sig:' + case['tag'].split('/')[0].split('-')[0]]
+        # the SAME scriptSig, transaction and input right afterwards against scriptPubKeys that differ from the signed one only
+        # in their code (an appended NOP, a leading executed CODESEPARATOR): whatever was learnt in the first verification
+        # (a signature that checked out for this input) says nothing about another script code
+        spk = bytes.fromhex(case['spk'])
+        if not case['tag'].split('/')[0].endswith('-p2sh'):
+            for alt in (spk + b'\x61', b'\xab' + spk, spk):
+                check_verify(dict(case, spk=alt.hex()))
         return info
     ctx.hyp(s_signed(), ctx.n(140, 2500), fn=fn)
 
